@@ -12,6 +12,7 @@ import z3
 from . import core, factory, npproxy
 
 REPO = os.environ.get("SYMX_REPO", "/repo")
+DEFAULT_RLIMIT = core.RLIMIT
 MARGIN = fractions.Fraction(1, 1000)
 
 
@@ -100,7 +101,7 @@ def run_instance(spec):
     limits = spec.get("limits", {})
     max_paths = limits.get("max_paths", 4000)
     max_s = limits.get("max_s", 900)
-    core.RLIMIT = limits.get("rlimit", core.RLIMIT)
+    core.RLIMIT = limits.get("rlimit", DEFAULT_RLIMIT)  # per instance; never inherited from the previous one
     for k in core.STATS:
         core.STATS[k] = 0
     mod = importlib.import_module(spec["module"])
